@@ -1,7 +1,8 @@
 /-
-  FspecPairAppend4 — what `append` does in the corner excluded from `append_pair`
-  (`Spec.selfMerge`, recorded finding `C05:move-changes-character-data`): the call succeeds and the
-  moved text node is destroyed (merged "into itself").
+  FspecPairAppend4 — what `append` does in the corner `Spec.selfMerge` (finding
+  `C05:move-changes-character-data`, fixed by xot eccbbb7): the old-place merge makes the moved text
+  node the last child already; the call succeeds, the node is merged into its own previous sibling
+  (the merged text node) and the result is the specification `specMoveP`: no character data is lost.
 -/
 import XotModel.Lemmas.FspecPairAppend3
 import XotModel.Lemmas.FspecReplGapNF
@@ -44,11 +45,12 @@ end PairAppend
 
 open PairAppend
 
-/-- **The defect** (`C05:move-changes-character-data`): in the corner `selfMerge` the call
-    `append` succeeds and the moved text node is gone afterwards. -/
+/-- **The repaired corner** (`C05:move-changes-character-data`, xot eccbbb7): in the corner
+    `selfMerge` the call `append` succeeds and is the specification: the moved text node is merged
+    into the text node its two neighbours have become. -/
 theorem append_selfMerge {f : Forest} {p c : Nat} (inv : f.Inv)
     (h : selfMerge f (.lastChildOf p) c = true) :
-    (f.append p c).2 = .ok ∧ (f.append p c).1.isLive c = false := by
+    (f.append p c).2 = .ok ∧ (f.append p c).1 = specMoveP (.lastChildOf p) c f := by
   have nd := inv.nodup
   obtain ⟨hc, l', a, t, b, hctx, htt, hat, hbt⟩ := selfMerge_unpack h
   obtain ⟨e0, vo, so⟩ := SiteAt.of_ctx nd hctx
@@ -57,7 +59,6 @@ theorem append_selfMerge {f : Forest} {p c : Nat} (inv : f.Inv)
   obtain ⟨ndL, hpL⟩ := so.nodupKids
   obtain ⟨tl, tr⟩ := tops_ne_of_nodup ndL
   have hgc : f.get? t.handle = some t := so.getKid
-  have hleaf : t.kids = [] := leaf_of_text inv.valid hgc htt
   have hpt : p ∉ handles t := by
     intro hin
     apply hpL
@@ -77,68 +78,55 @@ theorem append_selfMerge {f : Forest} {p c : Nat} (inv : f.Inv)
     rw [e, lastOf_concat, if_pos (isNormal_of_text hbt)]
     intro e'
     exact tr b (by simp) (Option.some.inj e')
-  rw [append_eq_tail hsc hsame', Forest.prevSibling_of_ctx hctx, Forest.nextSibling_of_ctx hctx]
-  simp only
-  obtain ⟨l1, r1, O⟩ := old_pair inv so
-  rcases O.shape with ⟨_, _, hno⟩ | ⟨_, l2, a2, b2, r2, x, y, el, er, hx, hy, e1, e2⟩
-  · exact absurd ⟨hat, hbt⟩ (hno hc a b (by simp) rfl)
-  · have hr2 : r2 = [] := by
-      have := congrArg List.tail er
-      simpa using this.symm
-    rw [hr2] at e2
-    have sX := O.sX
-    rw [e2] at sX
-    generalize (f.removeConsolidate (prevOf (l' ++ [a]) t) (nextOf [b] t)).1 = X at sX O ⊢
-    have hcX : X.consolidation = true := O.cons_eq.trans hc
-    obtain ⟨tc, htd⟩ := isText_iff_textData.1 htt
-    have hXtext : X.textOf t.handle = some tc := (Forest.textOf_of_get sX.getKid).trans htd
-    have hlastX : X.lastChild p = some t.handle := by
-      rw [Forest.lastChild_of_get sX.kids]; exact lastOf_self hnorm
-    have hadd : X.addConsolidate t.handle (X.lastChild p) none =
-        ((X.setValue t.handle (.text (tc ++ tc))).spliceOut t.handle, true) := by
-      rw [hlastX]
-      exact Forest.addConsolidate_prev hcX hXtext hXtext none
-    unfold appendTail
-    rw [hadd]
-    simp only [if_true, true_and]
-    -- the forest after the "merge into itself"
-    let t' := t.setValue (.text (tc ++ tc))
-    let S : List HTree → List HTree := replaceTop t.handle (fun k => [k.setValue (.text (tc ++ tc))])
-    obtain ⟨ndL1, _⟩ := sX.nodupKids
-    have hSL : S (l1 ++ t :: []) = l1 ++ t' :: [] := by
-      simp only [S]
-      rw [replaceTop_mid rfl (tops_ne_of_nodup ndL1).1]
-      simp [t']
-    have sZ : SiteAt (X.editAt (some p) S) p vo (l1 ++ t' :: []) := by
-      have := sX.edit S (by simp only [S]; rw [handlesList_setValTop]; exact List.Sublist.refl _)
-      rwa [hSL] at this
-    have hth : t'.handle = t.handle := setValue_handle _ _
-    have hgZ : (X.editAt (some p) S).get? t.handle = some t' := hth ▸ sZ.getKid
-    have hparZ : (X.editAt (some p) S).parent? t.handle = some p := hth ▸ Forest.parent?_of_ctx sZ.ctx
-    rw [Forest.setValue_of_ctx _ sX.nd sX.ctx,
-      Forest.spliceOut_leaf sZ.nd hgZ (by simp only [t']; rw [setValue_kids]; exact hleaf), hparZ]
-    obtain ⟨ndLZ, _⟩ := sZ.nodupKids
-    obtain ⟨tlZ, trZ⟩ := tops_ne_of_nodup ndLZ
-    have hcount := sZ.count (dropTop t.handle) t.handle
-    rw [dropTop_mid hth (fun k hk => hth ▸ tlZ k hk) (fun k hk => hth ▸ trZ k hk), count_handles_mid] at hcount
-    have h1 := List.nodup_iff_count.1 sZ.nd t.handle
-    have h2 : 0 < (handles t').count t.handle :=
-      List.count_pos_iff.2 (hth ▸ fs_handle_mem_handles t')
-    have h0 : ((X.editAt (some p) S).editAt (some p) (dropTop t.handle)).allHandles.count t.handle = 0 := by omega
-    unfold Forest.isLive
-    rw [Forest.get?_eq, findList?_eq_none _ (List.count_eq_zero.1 h0)]
-    rfl
+  have hok : (f.append p t.handle).2 = .ok := by
+    rw [append_eq_tail hsc hsame', Forest.prevSibling_of_ctx hctx, Forest.nextSibling_of_ctx hctx]
+    simp only
+    obtain ⟨l1, r1, O⟩ := old_pair inv so
+    rcases O.shape with ⟨_, _, hno⟩ | ⟨_, l2, a2, b2, r2, x, y, el, er, hx, hy, e1, e2⟩
+    · exact absurd ⟨hat, hbt⟩ (hno hc a b (by simp) rfl)
+    · have hr2 : r2 = [] := by
+        have := congrArg List.tail er
+        simpa using this.symm
+      rw [hr2] at e2
+      have sX := O.sX
+      rw [e2, e1] at sX
+      generalize (f.removeConsolidate (prevOf (l' ++ [a]) t) (nextOf [b] t)).1 = X at sX O ⊢
+      have hcX : X.consolidation = true := O.cons_eq.trans hc
+      obtain ⟨tc, htd⟩ := isText_iff_textData.1 htt
+      have hXtext : X.textOf t.handle = some tc := (Forest.textOf_of_get sX.getKid).trans htd
+      have hlastX : X.lastChild p = some t.handle := by
+        rw [Forest.lastChild_of_get sX.kids]; exact lastOf_self hnorm
+      have han : (a2.setValue (.text (x ++ y))).value.isNormal = true := by rw [setValue_value]; rfl
+      have c1 : (a2.setValue (.text (x ++ y))).value.category = .normal := by
+        simpa [Value.isNormal] using han
+      have c2 : t.value.category = .normal := by simpa [Value.isNormal] using hnorm
+      have hprevX : X.prevSibling t.handle = some (a2.setValue (.text (x ++ y))).handle := by
+        rw [Forest.prevSibling_of_ctx sX.ctx]
+        simp [prevOf, c1, c2]
+      have sXa : SiteAt X p vo (l2 ++ a2.setValue (.text (x ++ y)) :: (t :: [])) := by
+        have e : l2 ++ a2.setValue (.text (x ++ y)) :: (t :: []) =
+            (l2 ++ [a2.setValue (.text (x ++ y))]) ++ t :: [] := by simp
+        rw [e]; exact sX
+      have hXa : X.textOf (a2.setValue (.text (x ++ y))).handle = some (x ++ y) := by
+        rw [Forest.textOf_of_get sXa.getKid]
+        exact textData_of_value (setValue_value _ _)
+      have hadd : X.addConsolidate t.handle (X.lastChild p) none =
+          ((X.setValue (a2.setValue (.text (x ++ y))).handle (.text ((x ++ y) ++ tc))).spliceOut t.handle,
+            true) := by
+        rw [hlastX]; exact Forest.addConsolidate_prev_self hcX hXtext hprevX hXa none
+      unfold appendTail
+      rw [hadd]
+      simp
+  exact ⟨hok, append_pair inv hok⟩
 
 /-- The hypothesis of `append_selfMerge` is satisfiable: `append(e, c)` on the children `a b c d`
-    (`b` and `d` are merged, `c` is then the last child already); the model's result differs from
-    the pair reading, which keeps the data of `c`. -/
+    (`b` and `d` are merged, `c` is then the last child already and is merged into `bd`): the
+    model's result is the pair reading, `a` `bdc`; the node `c` is gone, its data is not. -/
 example :
     PairAppend.witness.inv = true ∧ selfMerge PairAppend.witness (.lastChildOf 0) 3 = true ∧
     (PairAppend.witness.append 0 3).2 = .ok ∧ (PairAppend.witness.append 0 3).1.isLive 3 = false ∧
-    (PairAppend.witness.append 0 3).1 ≠ specMoveP (.lastChildOf 0) 3 PairAppend.witness ∧
+    (PairAppend.witness.append 0 3).1 = specMoveP (.lastChildOf 0) 3 PairAppend.witness ∧
     ((PairAppend.witness.append 0 3).1.content.head?).map (·.kids) =
-      some [.node (.text ['a']) [], .node (.text ['b', 'd']) []] ∧
-    ((specMoveP (.lastChildOf 0) 3 PairAppend.witness).content.head?).map (·.kids) =
       some [.node (.text ['a']) [], .node (.text ['b', 'd', 'c']) []] := by
   decide
 
